@@ -215,74 +215,7 @@ single_filter_harness!(c22_limit_single_ge, ">=", |c, x| c >= x, false, true);
 // @ob same for `!= $x` (no limit may be produced)
 single_filter_harness!(c22_limit_single_ne, "!=", |c, x| c != x, false, false);
 
-macro_rules! two_filter_harness {
-    ($name:ident, $op1:literal, $op2:literal, $pass1:expr, $pass2:expr, $s1:literal, $s2:literal) => {
-        #[kani::proof]
-        #[kani::unwind(4)]
-        pub(crate) fn $name() {
-            // the signedness of both arguments is fixed per harness (one path each): x is Int64 iff $s1, y is Int64 iff $s2
-            let (i1, u1, i2, u2) = (vk::any_i64(), vk::any_u64(), vk::any_i64(), vk::any_u64());
-            let (x, y): (i128, i128) = (if $s1 { i1 as i128 } else { u1 as i128 }, if $s2 { i2 as i128 } else { u2 as i128 });
-            let mut args = BTreeMap::new();
-            if $s1 { args.insert(Arc::from("x"), FieldValue::Int64(i1)); } else { args.insert(Arc::from("x"), FieldValue::Uint64(u1)); }
-            if $s2 { args.insert(Arc::from("y"), FieldValue::Int64(i2)); } else { args.insert(Arc::from("y"), FieldValue::Uint64(u2)); }
-            let fold = mk_fold(vec![mk_filter($op1, "x"), mk_filter($op2, "y")]);
-            let mut carrier = mk_carrier(args);
-            let max = get_max_fold_count_limit(&mut carrier, &fold);
-            let min = get_min_fold_count_limit(&mut carrier, &fold);
-            core::mem::forget((carrier, fold));
-            let c = vk::any_u64() as i128;
-            verif_cover!(max.is_some() || min.is_some(), "a limit is produced");
-            let (f1, f2): (fn(i128, i128) -> bool, fn(i128, i128) -> bool) = ($pass1, $pass2);
-            check_limits(max, min, &|c| f1(c, x) && f2(c, y), c);
-        }
-    };
-}
-// @harness c22_limit_pair_lt_le_ii tier=thorough heavy=1 kind=complete timeout=1800 unwindset="!memcmp.0=12"
-// @ob two count filters `< $x` and `<= $y` (combining two max limits), all integer arguments and counts (x: Int64, y: Int64, full domains)
-two_filter_harness!(c22_limit_pair_lt_le_ii, "<", "<=", |c, x| c < x, |c, y| c <= y, true, true);
-// @harness c22_limit_pair_lt_le_iu tier=thorough heavy=1 kind=complete timeout=1800 unwindset="!memcmp.0=12"
-// @ob two count filters `< $x` and `<= $y` (combining two max limits), all integer arguments and counts (x: Int64, y: Uint64, full domains)
-two_filter_harness!(c22_limit_pair_lt_le_iu, "<", "<=", |c, x| c < x, |c, y| c <= y, true, false);
-// @harness c22_limit_pair_lt_le_ui tier=thorough heavy=1 kind=complete timeout=1800 unwindset="!memcmp.0=12"
-// @ob two count filters `< $x` and `<= $y` (combining two max limits), all integer arguments and counts (x: Uint64, y: Int64, full domains)
-two_filter_harness!(c22_limit_pair_lt_le_ui, "<", "<=", |c, x| c < x, |c, y| c <= y, false, true);
-// @harness c22_limit_pair_lt_le_uu tier=thorough heavy=1 kind=complete timeout=1800 unwindset="!memcmp.0=12"
-// @ob two count filters `< $x` and `<= $y` (combining two max limits), all integer arguments and counts (x: Uint64, y: Uint64, full domains)
-two_filter_harness!(c22_limit_pair_lt_le_uu, "<", "<=", |c, x| c < x, |c, y| c <= y, false, false);
-// @harness c22_limit_pair_gt_ge_ii tier=thorough heavy=1 kind=complete timeout=1800 unwindset="!memcmp.0=12"
-// @ob two count filters `> $x` and `>= $y` (combining two min limits) (x: Int64, y: Int64, full domains)
-two_filter_harness!(c22_limit_pair_gt_ge_ii, ">", ">=", |c, x| c > x, |c, y| c >= y, true, true);
-// @harness c22_limit_pair_gt_ge_iu tier=thorough heavy=1 kind=complete timeout=1800 unwindset="!memcmp.0=12"
-// @ob two count filters `> $x` and `>= $y` (combining two min limits) (x: Int64, y: Uint64, full domains)
-two_filter_harness!(c22_limit_pair_gt_ge_iu, ">", ">=", |c, x| c > x, |c, y| c >= y, true, false);
-// @harness c22_limit_pair_gt_ge_ui tier=thorough heavy=1 kind=complete timeout=1800 unwindset="!memcmp.0=12"
-// @ob two count filters `> $x` and `>= $y` (combining two min limits) (x: Uint64, y: Int64, full domains)
-two_filter_harness!(c22_limit_pair_gt_ge_ui, ">", ">=", |c, x| c > x, |c, y| c >= y, false, true);
-// @harness c22_limit_pair_gt_ge_uu tier=thorough heavy=1 kind=complete timeout=1800 unwindset="!memcmp.0=12"
-// @ob two count filters `> $x` and `>= $y` (combining two min limits) (x: Uint64, y: Uint64, full domains)
-two_filter_harness!(c22_limit_pair_gt_ge_uu, ">", ">=", |c, x| c > x, |c, y| c >= y, false, false);
-// @harness c22_limit_pair_ge_le_ii tier=thorough heavy=1 kind=complete timeout=1800 unwindset="!memcmp.0=12"
-// @ob `>= $x` and `<= $y` together: the max limit applies, no min limit may be produced (x: Int64, y: Int64, full domains)
-two_filter_harness!(c22_limit_pair_ge_le_ii, ">=", "<=", |c, x| c >= x, |c, y| c <= y, true, true);
-// @harness c22_limit_pair_ge_le_iu tier=thorough heavy=1 kind=complete timeout=1800 unwindset="!memcmp.0=12"
-// @ob `>= $x` and `<= $y` together: the max limit applies, no min limit may be produced (x: Int64, y: Uint64, full domains)
-two_filter_harness!(c22_limit_pair_ge_le_iu, ">=", "<=", |c, x| c >= x, |c, y| c <= y, true, false);
-// @harness c22_limit_pair_ge_le_ui tier=thorough heavy=1 kind=complete timeout=1800 unwindset="!memcmp.0=12"
-// @ob `>= $x` and `<= $y` together: the max limit applies, no min limit may be produced (x: Uint64, y: Int64, full domains)
-two_filter_harness!(c22_limit_pair_ge_le_ui, ">=", "<=", |c, x| c >= x, |c, y| c <= y, false, true);
-// @harness c22_limit_pair_ge_le_uu tier=thorough heavy=1 kind=complete timeout=1800 unwindset="!memcmp.0=12"
-// @ob `>= $x` and `<= $y` together: the max limit applies, no min limit may be produced (x: Uint64, y: Uint64, full domains)
-two_filter_harness!(c22_limit_pair_ge_le_uu, ">=", "<=", |c, x| c >= x, |c, y| c <= y, false, false);
-// @harness c22_limit_pair_ge_ne_ii tier=thorough heavy=1 kind=complete timeout=1800 unwindset="!memcmp.0=12"
-// @ob `>= $x` and `!= $y` together: no min limit may be produced (the `!=` filter would see a truncated count) (x: Int64, y: Int64, full domains)
-two_filter_harness!(c22_limit_pair_ge_ne_ii, ">=", "!=", |c, x| c >= x, |c, y| c != y, true, true);
-// @harness c22_limit_pair_ge_ne_iu tier=thorough heavy=1 kind=complete timeout=1800 unwindset="!memcmp.0=12"
-// @ob `>= $x` and `!= $y` together: no min limit may be produced (the `!=` filter would see a truncated count) (x: Int64, y: Uint64, full domains)
-two_filter_harness!(c22_limit_pair_ge_ne_iu, ">=", "!=", |c, x| c >= x, |c, y| c != y, true, false);
-// @harness c22_limit_pair_ge_ne_ui tier=thorough heavy=1 kind=complete timeout=1800 unwindset="!memcmp.0=12"
-// @ob `>= $x` and `!= $y` together: no min limit may be produced (the `!=` filter would see a truncated count) (x: Uint64, y: Int64, full domains)
-two_filter_harness!(c22_limit_pair_ge_ne_ui, ">=", "!=", |c, x| c >= x, |c, y| c != y, false, true);
-// @harness c22_limit_pair_ge_ne_uu tier=thorough heavy=1 kind=complete timeout=1800 unwindset="!memcmp.0=12"
-// @ob `>= $x` and `!= $y` together: no min limit may be produced (the `!=` filter would see a truncated count) (x: Uint64, y: Uint64, full domains)
-two_filter_harness!(c22_limit_pair_ge_ne_uu, ">=", "!=", |c, x| c >= x, |c, y| c != y, false, false);
+// Pairs of count filters (`< $x` with `<= $y`, `>= $x` with `!= $y`, ...) were attempted as Kani harnesses over full domains, first
+// with symbolic signedness (timeout 3000 s), then one harness per signedness combination (timeout 1800 s): CBMC does not finish
+// (two BTreeMap<Arc<str>, FieldValue> lookups plus the i128 comparison chain). Pairs are covered only by the bounded native grid
+// c22_grid_fold_count_limits (lib.rs), never counted as proved.
